@@ -19,11 +19,11 @@ ASSUMPTIONS = ['feasible designs are drawn from the geos admitted by geos_within
 
 def cases(tier, seed):
     out = spaces.family_space(tier, seed, INCLUDE, {'n_designs': 2}, methods=('exhaustive_search',),
-                              k_values=(1, 5, 50),
+                              k_values=(1, 5, 50), T=14,
                               full3_subsets=((), ('budget_range',), ('treatment_share_range', 'budget_range'),
                                              ('volume_ratio_tolerance', 'geo_ratio_tolerance'),
                                              ('treatment_geos_range', 'budget_range')))
-    pB4 = {'name': 'B', 'G': 4, 'T': 12}
+    pB4 = {'name': 'B', 'G': 4, 'T': 14}
     out += spaces.threshold_space(pB4, methods=('exhaustive_search',), base_kw={'n_designs': 3},
                                   rho_values=(0.995, 0.9) if tier == 'thorough' else (0.995,))
     if tier == 'thorough':
